@@ -1073,6 +1073,56 @@ pub fn replay(sub: &str, case: &Value) -> Result<(), Fail> {
 }
 
 pub fn fuzz_targets() -> Vec<crate::fuzz::Target> {
-    use crate::fuzz::from_strategy;
-    vec![from_strategy("c14_registry", "C14", "random", hist_strategy, check_hist)]
+    use crate::fuzz::{U, from_bytes};
+    fn toks(u: &mut U) -> Vec<u8> {
+        match u.weighted(&[3, 4, 1]) {
+            0 => u.vec(2, |u| u.below(2) as u8),
+            1 => u.vec(3, |u| u.below(TOKENS.len() as u64) as u8),
+            _ => u.vec(6, |u| u.below(TOKENS.len() as u64) as u8),
+        }
+    }
+    fn ptr(u: &mut U) -> Ptr {
+        match u.weighted(&[12, 1, 1]) {
+            0 => Ptr::Toks(toks(u)),
+            1 => Ptr::Malformed(u.below(MALFORMED.len() as u64) as u8),
+            _ => Ptr::SlashRoot,
+        }
+    }
+    fn op(u: &mut U) -> Op {
+        match u.weighted(&[3, 2, 1, 1, 6, 6, 1]) {
+            0 => Op::RegValue {
+                toks: toks(u),
+                val: u.below(12) as u8,
+                no_slash: u.bool(),
+            },
+            1 => Op::RegFunc {
+                toks: toks(u),
+                no_slash: u.bool(),
+            },
+            2 => Op::MergeAt {
+                toks: toks(u),
+                obj: u.below(4) as u8,
+            },
+            3 => Op::MergeRoot { obj: u.below(4) as u8 },
+            4 => Op::Read { ptr: ptr(u) },
+            5 => Op::Send {
+                ptr: ptr(u),
+                val: u.below(12) as u8,
+            },
+            _ => Op::ReadValue { ptr: ptr(u) },
+        }
+    }
+    vec![from_bytes(
+        "c14_registry",
+        "C14",
+        "random",
+        |data: &[u8]| {
+            let mut u = U::new(data);
+            Some(Hist {
+                prefix: u.below(PREFIXES.len() as u64) as u8,
+                ops: u.vec(100, op),
+            })
+        },
+        check_hist,
+    )]
 }
